@@ -87,6 +87,8 @@ def statements(qc):
             "subquery-from-in": lambda: qc.from_(qc.from_(t).select(t.a, t.b).where(t.c == 1)).select("a").where(T.Field("a").isin(qc.from_(t).select(t.z))),
             "cte": lambda: qc.with_(qc.from_(t).select(t.a).where(t.b == 1), "c").from_(P.AliasedQuery("c")).join(t).on(P.AliasedQuery("c").a == t.a).select(t.b),
             "update-set": lambda: qc.update(t).set(t.a, t.b + 1).set(t.c, x.c).from_(x).where(t.d == x.d),
+            # a multi-table UPDATE whose SET target is a column of the JOINED table (the replaced table is not the updated one)
+            "update-set-joined-target": lambda: qc.update(x).join(t).on(t.a == x.a).set(t.c, x.b + t.d).set(x.e, t.f).where(t.g == 1),
             "insert-select": lambda: qc.into(x).columns("a").from_(t).select(t.a).where(t.b == 1),
             "insert-values": lambda: qc.into(t).columns(t.a, t.b).insert(1, 2),
             "delete": lambda: qc.from_(t).delete().where(t.a == 1),
